@@ -510,3 +510,87 @@ def _(rng, v):
         S.run(niters=1)
         return S.ppm
     return f, (d, mu, sigma), {}
+
+
+# ------------------------------------------------------------------ objects built from caller arrays, used repeatedly
+@entry("fwhm2sigma/sigma2fwhm(ndarray)")
+def _(rng, v):
+    from nipy.algorithms.kernel_smooth import fwhm2sigma, sigma2fwhm
+    w = lay(np.array([5., 7., 9.]), v if v in ("plain", "fortran", "view", "readonly") else "plain")
+    return (lambda w: (fwhm2sigma(w), sigma2fwhm(w), fwhm2sigma(w))), (w,), {}
+
+
+@entry("LinearFilter(fwhm=ndarray) used twice")
+def _(rng, v):
+    from nipy.algorithms.kernel_smooth import LinearFilter
+    if v in ("singleton", "empty", "extreme"):
+        raise Skip()
+    img = _img(rng, "plain", (5, 6, 4))
+    w = lay(np.array([3., 4., 5.]), v)
+
+    def f(im, w):
+        a = LinearFilter(im.coordmap, im.shape, fwhm=w).smooth(im)
+        b = LinearFilter(im.coordmap, im.shape, fwhm=w).smooth(im)
+        return a, b
+    return f, (img, w), {}
+
+
+@entry("ARModel(design, rho ndarray).iterative_fit")
+def _(rng, v):
+    from nipy.algorithms.statistics.models.regression import ARModel
+    if v in ("singleton", "empty", "extreme"):
+        raise Skip()
+    X = np.array(data(rng, "plain", (12, 2))); X[:, 0] = 1; X[:, 1] = np.arange(12)
+    Y = data(rng, "plain", (12,))
+    rho = lay(np.array([0.25, 0.125]), v)
+    rho0 = np.array(0.25)        # 0-d array: documented "int or array-like"
+
+    def f(X, Y, rho, rho0):
+        m = ARModel(X, rho); m.iterative_fit(Y, niter=2)
+        m0 = ARModel(X, rho0); m0.fit(Y)
+        return m.rho, m0.rho
+    return f, (X, Y, rho, rho0), {}
+
+
+@entry("Field(field=array) morphology on a copy of the caller's field")
+def _(rng, v):
+    from nipy.algorithms.graph.field import field_from_coo_matrix_and_data
+    import scipy.sparse as sps
+    if v in ("singleton", "empty", "extreme"):
+        raise Skip()
+    A = sps.coo_matrix(np.array([[0, 1, 0, 0], [1, 0, 1, 0], [0, 1, 0, 1], [0, 0, 1, 0]], float))
+    d = data(rng, v, (4, 1))
+
+    def f(A, d):
+        F = field_from_coo_matrix_and_data(A, np.array(d))
+        F.dilation(); F.erosion()
+        return F.get_local_maxima(), F.custom_watershed()
+    return f, (A, d), {}
+
+
+@entry("GeneralLinearModel contrast state machine")
+def _(rng, v):
+    from nipy.modalities.fmri.glm import Contrast
+    if v in ("empty",):
+        raise Skip()
+    e = data(rng, v, (1, 6)); var = np.abs(data(rng, v, (1, 1, 6))) + 1
+
+    def f(e, var):
+        c = Contrast(e, var, dof=10)
+        return c.p_value(0.), c.stat(1.), c.z_score(1.), (2 * c).stat(), (c + c).z_score()
+    return f, (e, var), {}
+
+
+@entry("MixedEffectsModel fit twice")
+def _(rng, v):
+    from nipy.algorithms.statistics.mixed_effects_stat import MixedEffectsModel
+    if v in ("singleton", "empty", "extreme"):
+        raise Skip()
+    Y = data(rng, v, (6, 3)); V1 = np.abs(data(rng, v, (6, 3))) + 1
+    X = np.ones((6, 1))
+
+    def f(Y, V1, X):
+        m = MixedEffectsModel(X, n_iter=2)
+        m.fit(Y, V1); m.fit(Y, V1)
+        return m.beta_, m.V2
+    return f, (Y, V1, X), {}
